@@ -439,6 +439,15 @@ class SymInterp(Interp):
             f = self.method_resolver(recv, m)
             if f is not None:
                 return self.inline(f, args, recv=recv)
+        if isinstance(recv, list) and m == "filter" and len(args) == 1:
+            return [x for x in recv if self.call_closure(args[0], [x]) is True]
+        if isinstance(recv, list) and m in ("copied", "cloned", "by_ref", "peekable", "rev_iter") and not args:
+            return recv
+        if isinstance(recv, list) and m == "pop" and not args:
+            return recv.pop() if recv else None
+        if isinstance(recv, list) and m == "extend" and len(args) == 1 and isinstance(args[0], list):
+            recv.extend(args[0])
+            return None
         if isinstance(recv, list) and m == "find_map" and len(args) == 1:
             for x in recv:
                 v = self.call_closure(args[0], [x])
